@@ -342,10 +342,12 @@ pub fn run(cfg: &Cfg) -> Report {
       triples.push((rng.below(n as u64) as usize, rng.below(n as u64) as usize, rng.below(n as u64) as usize));
     }
   }
+  // in chunks: the thorough tier has n³ (about two million) triples with five requests each
+  for chunk in triples.chunks(20_000) {
   let mut treqs = vec![];
   let mut tmeta = vec![];
   let mut tresults = vec![];
-  for (i, j, k) in &triples {
+  for (i, j, k) in chunk {
     let scope = scope_of(&[("a", &alphabet[*i].1), ("b", &alphabet[*j].1), ("c", &alphabet[*k].1)]);
     let txt = format!("a = {}, b = {}, c = {}", alphabet[*i].0, alphabet[*j].0, alphabet[*k].0);
     let bt = guarded(|| ev_between(&scope)).unwrap_or(Value::Null(Some("panic".into())));
@@ -408,6 +410,7 @@ pub fn run(cfg: &Cfg) -> Report {
         ans,
       );
     }
+  }
   }
   rep.exhaustive = thorough;
   rep.model_requests = model.requests;
